@@ -257,6 +257,84 @@ func c13Once(c *mon.Ctx) {
 	c.R.Sample(4, map[string]any{"sources": allSorted, "profiles": nprof, "unknown_strings_tried": unknown[:8]})
 }
 
+// c13LibPass checks, on the live registry as it is NOW, that every listed name is usable as include and
+// exclude name and every listed source is accepted by the parsers and selects exactly its lints.
+func c13LibPass(c *mon.Ctx, when string) {
+	g := lint.GlobalRegistry()
+	inv := mon.Inventory(g)
+	names := g.Names()
+	if len(inv) != len(names) {
+		c.V("listing-vs-lookup|"+when, fmt.Sprintf("%s: Names() lists %d names but only %d are found by the per-kind lookups", when, len(names), len(inv)), "", nil, nil)
+	}
+	for _, n := range names {
+		c.R.Count("evaluations", 2)
+		r, err := g.Filter(lint.FilterOptions{IncludeNames: []string{n}})
+		if err != nil || r == nil || len(r.Names()) != 1 || r.Names()[0] != n {
+			c.V("name-not-includable|"+when, fmt.Sprintf("%s: listed lint name %s is not accepted as an include name: %v", when, n, err), n, nil, nil)
+		}
+		r, err = g.Filter(lint.FilterOptions{ExcludeNames: []string{" " + n}})
+		if err != nil || r == nil || len(r.Names()) != len(names)-1 {
+			c.V("name-not-excludable|"+when, fmt.Sprintf("%s: listed lint name %s is not accepted as an exclude name: %v", when, n, err), n, nil, nil)
+		}
+	}
+	per := map[lint.LintSource]int{}
+	for _, li := range inv {
+		per[li.Meta.Source]++
+	}
+	listed := map[lint.LintSource]bool{}
+	for _, s := range g.Sources() {
+		listed[s] = true
+		c.R.Count("evaluations", 2)
+		var sl lint.SourceList
+		if err := sl.FromString(string(s)); err != nil {
+			c.V("source-list-parser|"+when, fmt.Sprintf("%s: listed source %s rejected by SourceList.FromString: %v", when, s, err), "", nil, nil)
+		}
+		r, err := g.Filter(lint.FilterOptions{IncludeSources: lint.SourceList{s}})
+		if err != nil || len(r.Names()) != per[s] {
+			c.V("source-filter|"+when, fmt.Sprintf("%s: filtering by listed source %s selects %d lints, the registry holds %d", when, s, len(r.Names()), per[s]), "", nil, nil)
+		}
+	}
+	for s := range per {
+		if !listed[s] {
+			c.V("source-not-listed|"+when, fmt.Sprintf("%s: source %s of a registered lint is missing from Sources()", when, s), "", nil, nil)
+		}
+	}
+	c.R.Count("lib_passes", 1)
+}
+
+// c13Solo (own process): additions. After selections have been made (so that any cache is warm), lints of
+// each kind are registered through the public API; everything listed afterwards must still be selectable.
+func c13Solo(c *mon.Ctx) {
+	c13LibPass(c, "before any addition")
+	mk := func(name string, src lint.LintSource) lint.LintMetadata {
+		return lint.LintMetadata{Name: name, Description: "verif addition", Citation: "verif", Source: src}
+	}
+	steps := []struct {
+		what string
+		do   func()
+	}{
+		{"after adding an OCSP lint", func() {
+			lint.RegisterOcspResponseLint(&lint.OcspResponseLint{LintMetadata: mk("e_verif_added_ocsp", lint.RFC8813), Lint: func() lint.OcspResponseLintInterface { return probeOCSP{} }})
+		}},
+		{"after adding a CRL lint", func() {
+			lint.RegisterRevocationListLint(&lint.RevocationListLint{LintMetadata: mk("w_verif_added_crl", lint.RFC5891), Lint: func() lint.RevocationListLintInterface { return probeCRL{} }})
+		}},
+		{"after adding a certificate lint", func() {
+			lint.RegisterCertificateLint(&lint.CertificateLint{LintMetadata: mk("n_verif_added_cert", lint.RFC6960), Lint: func() lint.CertificateLintInterface { return probeCert{} }})
+		}},
+		{"after adding a second OCSP lint", func() {
+			lint.RegisterOcspResponseLint(&lint.OcspResponseLint{LintMetadata: mk("e_verif_added_ocsp2", lint.CABFCSBaselineRequirements), Lint: func() lint.OcspResponseLintInterface { return probeOCSP{} }})
+		}},
+		{"after adding a lint through the deprecated RegisterLint", func() {
+			lint.RegisterLint(&lint.Lint{Name: "e_verif_added_legacy", Description: "verif addition", Citation: "verif", Source: lint.EtsiEsi, Lint: func() lint.LintInterface { return probeCert{} }})
+		}},
+	}
+	for _, st := range steps {
+		st.do()
+		c13LibPass(c, st.what)
+	}
+}
+
 func sameSet(a, b map[string]bool) bool {
 	if len(a) != len(b) {
 		return false
@@ -273,10 +351,11 @@ func init() {
 	mon.Register(&mon.Check{
 		ID:          "C13",
 		Procs:       func(c *mon.Ctx) int { return 1 },
-		Rule:        "exhaustive over what the live registry and the real CLI list: every name is used alone as include and exclude name (library; CLI for every 7th at quick, all at thorough); every source goes through SourceList.FromString, LintSource.FromString, a JSON round trip, the library filter and `zlint -includeSources/-excludeSources X -list-lints-json` (exact set compared); every profile printed by -list-profiles is resolved and used; seeded unknown sources / names / profiles must be rejected by library and CLI. distinct_nontrivial = names + sources + profiles + unknown strings checked.",
+		Rule:        "exhaustive over what the live registry and the real CLI list: every name is used alone as include and exclude name (library; CLI for every 7th at quick, all at thorough); every source goes through SourceList.FromString, LintSource.FromString, a JSON round trip, the library filter and `zlint -includeSources/-excludeSources X -list-lints-json` (exact set compared); every profile printed by -list-profiles is resolved and used; seeded unknown sources / names / profiles must be rejected by library and CLI; in an own process, lints of every kind are then ADDED through the public Register* API after selections were made, and everything listed must still be selectable after each addition. distinct_nontrivial = names + sources + profiles + unknown strings checked.",
 		Assumptions: []string{"profiles are read from the real CLI's -list-profiles output (the harness does not link the profiles package)"},
 		Setup:       setupCommon,
 		Once:        c13Once,
+		Solo:        c13Solo,
 		Cases:       func(c *mon.Ctx) int { return 0 },
 		RunCase:     func(c *mon.Ctx, i int) {},
 		StallSecs:   900,
@@ -288,6 +367,9 @@ func init() {
 			var gates []string
 			if r.SetSize("names_checked") < 100 || r.SetSize("sources_checked") < 5 {
 				gates = append(gates, "too few names/sources checked")
+			}
+			if r.Counters["lib_passes"] < 6 {
+				gates = append(gates, "the additions scenario (own process) did not complete")
 			}
 			if r.Counters["cli_invocations"] < 50 {
 				gates = append(gates, "CLI part did not run")
